@@ -256,6 +256,14 @@ def run_typemap(prog, ctx=None):
         if f is None:
             raise Broken("anchor missing: " + name)
         n = 0
+        if not any(True for _ in switch_cases(f)):
+            # the id -> size switch was moved into a file-local helper the function calls
+            for b_, i_, e_ in f.elements():
+                if e_.get("k") == "call" and e_.get("fn"):
+                    for g in prog.resolve_call(f, e_):
+                        if g.static and g.file == f.file and not g.nocfg and any(True for _ in switch_cases(g)):
+                            f = g
+                            break
         for K, blk, swb in switch_cases(f):
             szs = []
             for e in first_case_elements(f, blk):
